@@ -25,20 +25,21 @@ type Files struct {
 func BaseName(pid int) string { return fmt.Sprintf("p%04d", pid) }
 
 type emitter struct {
-	p       *ps.Program
-	pkg     string // batch package name
-	fnsPkg  string // import path of the imported-functions package
-	tyAlias string
-	slot    int
-	body    strings.Builder // body of the directive call's enclosing function, line-tracked
-	line    int             // current line within body (0-based count of newlines written)
-	comp    strings.Builder
-	imp     strings.Builder
-	lineK   map[int]int
-	predLK  map[int]int // line (within body) of a cff.Predicate( call -> k
-	expName map[int]string
-	needCur bool
-	usesRv  bool
+	p            *ps.Program
+	pkg          string // batch package name
+	fnsPkg       string // import path of the imported-functions package
+	tyAlias      string
+	slot         int
+	body         strings.Builder // body of the directive call's enclosing function, line-tracked
+	line         int             // current line within body (0-based count of newlines written)
+	comp         strings.Builder
+	gateDeclared bool // the method-value predicate type of this program has been emitted
+	imp          strings.Builder
+	lineK        map[int]int
+	predLK       map[int]int // line (within body) of a cff.Predicate( call -> k
+	expName      map[int]string
+	needCur      bool
+	usesRv       bool
 }
 
 func (e *emitter) w(format string, a ...interface{}) {
@@ -312,6 +313,14 @@ func (e *emitter) predFn(t *ps.Task) string {
 			return fmt.Sprintf("func(%s_ ...int64) bool { return %s) }", decl, call)
 		}
 	}
+	if t.PForm == "meth" && len(t.PIns) == 0 && !t.PCtx {
+		// `pNGate{h, k}.Enabled`: one method, one receiver value per predicate
+		if !e.gateDeclared {
+			e.gateDeclared = true
+			fmt.Fprintf(&e.comp, "type p%dGate struct {\n\th *rt.H\n\tk int\n}\n\nfunc (g p%dGate) Enabled() bool { return g.h.Pred(nil, g.k) }\n\n", pid, pid)
+		}
+		return fmt.Sprintf("p%dGate{h, %d}.Enabled", pid, t.K)
+	}
 	if t.PForm == "named" {
 		name := fmt.Sprintf("p%dPred%d", pid, t.K)
 		decl, vals := params(t.PCtx, "c", nil, t.PIns, tyc)
@@ -493,7 +502,8 @@ func Emit(p *ps.Program, pkg, fnsPkg string) *Files {
 		} else if p.Kind == "flow" {
 			e.w("func extraP%d(cx context.Context) error {\n\treturn cff.Parallel(cx, cff.Task(func() {}))\n}\n\n", p.PID)
 		} else {
-			e.w("func extraP%d(cx context.Context) (n int64, err error) {\n\terr = cff.Flow(cx, cff.Results(&n), cff.Task(func() int64 { return 7 }))\n\treturn\n}\n\n", p.PID)
+			// … whose task takes a parameter of the predeclared type error (a named type without a package)
+			e.w("func extraP%d(cx context.Context) (n int64, err error) {\n\terr = cff.Flow(cx, cff.Params(errors.New(\"e\")), cff.Results(&n), cff.Task(func(e error) int64 { return int64(len(e.Error())) }))\n\treturn\n}\n\n", p.PID)
 		}
 	}
 
@@ -591,6 +601,11 @@ func Emit(p *ps.Program, pkg, fnsPkg string) *Files {
 			}
 			e.w("\t\tcff.Concurrency(%s),\n", e.arg(x))
 		case "coe":
+			if p.PID%3 == 1 {
+				// the option given twice: the last occurrence decides (here an earlier one with the
+				// opposite constant value)
+				e.w("\t\tcff.ContinueOnError(%v),\n", !strings.HasSuffix(p.COE, "1"))
+			}
 			switch p.COE {
 			case "const0":
 				e.w("\t\tcff.ContinueOnError(false),\n")
@@ -748,7 +763,7 @@ func Emit(p *ps.Program, pkg, fnsPkg string) *Files {
 	}
 	imps = append(imps, `"verifprog/rt"`)
 	if reExt.MatchString(comp) {
-		imps = append(imps, `"verifprog/ext"`)
+		imps = append(imps, `ext "verifprog/ext"`)
 	}
 	if reTy.MatchString(comp) {
 		imps = append(imps, `"verifprog/ty"`)
